@@ -73,13 +73,28 @@ func vhC10Op(env *vhEnv, in *vhInterp, ref []*vhLife, locOn *bool, step, op int)
 	return env
 }
 
-func VH_C10_hist(kind, op1, op2, op3 int) {
+func VH_C10_hist(kind, op1, op2, op3 int) { vhC10Hist(kind, op1, op2, op3, 7) }
+
+// VH_C10_hist4: four-operation histories (e.g. add, disable, remove, reload: the flag must
+// be gone from storage too).
+func VH_C10_hist4(kind, op1, op2, op3, op4 int) { vhC10Hist(kind, op1, op2, op3, op4) }
+
+func vhC10Hist(kind, op1, op2, op3, op4 int) {
 	env, in := vhDispatchEnv(kind)
 	ref := []*vhLife{{id: vhIdD(0)}, {id: vhIdD(1)}}
 	locOn := true
 	env = vhC10Op(env, in, ref, &locOn, 1, op1)
 	env = vhC10Op(env, in, ref, &locOn, 2, op2)
 	env = vhC10Op(env, in, ref, &locOn, 3, op3)
+	env = vhC10Op(env, in, ref, &locOn, 4, op4)
+	if locOn {
+		// the disabled flag is exactly what the history left (it disappears with the
+		// rule and survives a reload)
+		for _, r := range ref {
+			enabled, _ := env.loc.RuleEnabled(env.ctx, r.id)
+			vassert(enabled == !r.disabled, "disabled-flag-as-left-by-history")
+		}
+	}
 
 	ev := vhFactC("e", 0)
 	for _, v := range ev {
